@@ -348,6 +348,66 @@ func runC06(c *Ctx) error {
 		}
 	}
 
+	// ---- replies that BEGIN with stored headers and continue with new ones ----
+	// (a) the store holds the first s blocks of the honest branch as a stale fork (they lost the tie against the stored tip's branch,
+	//     the honest peer built on them): the reply starts right after the common prefix, i.e. with those s stored headers;
+	// (b) the store's longest chain leaves the honest chain more than 10 blocks below its tip: the fork point lies between the sparse
+	//     locator entries, the first hash the peer knows is below it and the reply begins with common headers.
+	// The peer's cap is always larger than the number of re-delivered headers (a reply made only of stored headers ends the conversation
+	// in both engines - with the protocol's 2000 that needs a stored fork / locator gap of 2000 headers; see the assumptions).
+	for _, eng := range engines {
+		for a := 0; a <= 2; a++ {
+			for _, lens := range [][2]int{{1, 2}, {2, 3}, {2, 4}, {3, 5}} {
+				x, y := lens[0], lens[1]
+				u, pre, good, bad := forkUniverse(a, y, x, tsOld)
+				for s := 1; s <= x && s < y; s++ {
+					for _, cp := range []int{s + 1, s + 2, 2000} {
+						variants := []struct {
+							cps []cpSpec
+							dis bool
+						}{{nil, false}, {[]cpSpec{{a + y, good[y-1]}}, false}}
+						if eng == "d" {
+							variants = append(variants, struct {
+								cps []cpSpec
+								dis bool
+							}{[]cpSpec{{a + y, good[y-1]}}, true})
+						}
+						for _, v := range variants {
+							sc := &Scenario{Eng: eng, Cps: v.cps, Dis: v.dis, U: u, Init: catInts(pre, bad, good[:s]),
+								Nodes: []*nodeSpec{{P: 1, Cap: cp, Chain: catInts(pre, good)}}, Cmds: []string{"C1", "R60"}}
+							if err := g.do(sc, "fork-stale-branch-extended"); err != nil {
+								return err
+							}
+						}
+					}
+				}
+			}
+		}
+		for _, sh := range [][3]int{{8, 13, 15}, {6, 11, 12}, {9, 14, 20}, {5, 12, 13}} {
+			a, x, y := sh[0], sh[1], sh[2] // common prefix, stored branch, honest branch
+			u, pre, good, bad := forkUniverse(a, y, x, tsOld)
+			for _, cp := range []int{a + 1, 40, 2000} {
+				variants := []struct {
+					cps []cpSpec
+					dis bool
+				}{{nil, false}, {[]cpSpec{{2, pre[1]}}, false}, {[]cpSpec{{2, pre[1]}, {a + y, good[y-1]}}, false}}
+				if eng == "d" {
+					variants = append(variants, struct {
+						cps []cpSpec
+						dis bool
+					}{[]cpSpec{{2, pre[1]}}, true})
+				}
+				for _, v := range variants {
+					sc := &Scenario{Eng: eng, Cps: v.cps, Dis: v.dis, U: u, Init: catInts(pre, bad),
+						Nodes: []*nodeSpec{{P: 1, Cap: cp, Chain: catInts(pre, good)}}, Cmds: []string{"C1", "R80"}}
+					if err := g.do(sc, "fork-deeper-than-dense-locator"); err != nil {
+						return err
+					}
+				}
+			}
+		}
+	}
+
 	// ---- a peer drops during the handshake; an honest peer must be synced from ----
 	{
 		n := 4
